@@ -155,7 +155,8 @@ static void run_one(const unsigned char *in, size_t len, int ci, const size_t *c
  * the connection's configuration but are installed for the transaction with htp_tx_set_config() from a REQUEST_LINE callback
  * (the connection configuration then carries different settings): parameters are decoded per the transaction's configuration. */
 static htp_cfg_t *conn_cfg_other;
-static uint64_t n_e2e, n_e2e_txcfg, n_e2e_chunked;
+static uint64_t n_e2e, n_e2e_txcfg, n_e2e_chunked, n_e2e_query, n_e2e_copy;
+static htp_cfg_t *copies[24];       /* htp_config_copy() of each configuration: a connection may as well be created from a copy */
 static int cb_install_txcfg(htp_tx_t *tx) {
     intptr_t ci = (intptr_t) htp_connp_get_user_data(tx->connp);
     if (ci >= 100) htp_tx_set_config(tx, cfgs[ci - 100], HTP_CONFIG_SHARED);
@@ -165,7 +166,10 @@ static int cb_install_txcfg(htp_tx_t *tx) {
 static void run_e2e(const unsigned char *in, size_t len, int ci, const size_t *cuts, int ncuts, const pair *exp, int nexp, int txcfg) {
     if (len == 0) return;
     n_eval++; n_e2e++; if (txcfg) n_e2e_txcfg++;
-    htp_connp_t *cp = htp_connp_create(txcfg ? conn_cfg_other : cfgs[ci]);
+    /* every fourth plain run uses a connection created from htp_config_copy() of the configuration (the template/copy recipe) */
+    int copied = !txcfg && (n_e2e % 4) == 1 && copies[ci] != NULL;
+    if (copied) n_e2e_copy++;
+    htp_connp_t *cp = htp_connp_create(txcfg ? conn_cfg_other : (copied ? copies[ci] : cfgs[ci]));
     if (cp == NULL) return;
     htp_connp_set_user_data(cp, (void *) (intptr_t) (txcfg ? 100 + ci : ci));
     struct timeval tv = { 1, 0 };
@@ -178,6 +182,19 @@ static void run_e2e(const unsigned char *in, size_t len, int ci, const size_t *c
     int hl = chunked ? snprintf(head, sizeof head, "%s /e2e HTTP/1.1\r\nHost: h\r\nContent-Type: application/x-www-form-urlencoded\r\nTransfer-Encoding: chunked\r\n\r\n%zx\r\n", method, len)
                      : snprintf(head, sizeof head, "%s /e2e HTTP/1.1\r\nHost: h\r\nContent-Type: application/x-www-form-urlencoded\r\nContent-Length: %zu\r\n\r\n", method, len);
     if (chunked) n_e2e_chunked++;
+    /* the same string also travels as the query string when it can stand in a request line as it is (the decoder settings of
+     * the query string are those in force when the REQUEST_LINE hooks run: not judged in the htp_tx_set_config runs, where the
+     * transaction's configuration is installed by a later callback of that very hook) */
+    int query = !txcfg && len <= 60;
+    for (size_t i = 0; i < len && query; i++) if (in[i] <= 0x20 || in[i] >= 0x7f || in[i] == '#') query = 0;
+    char head2[300];
+    if (query) {
+        n_e2e_query++;
+        const char *sp = strchr(head, ' ');          /* "<METHOD> /e2e HTTP/1.1..." -> "<METHOD> /e2e?<in> HTTP/1.1..." */
+        size_t ml = (size_t) (sp - head) + 5;
+        memcpy(head2, head, ml); head2[ml] = '?'; memcpy(head2 + ml + 1, in, len); memcpy(head2 + ml + 1 + len, head + ml, (size_t) hl - ml);
+        htp_connp_req_data(cp, &tv, head2, (size_t) hl + 1 + len);
+    } else
     htp_connp_req_data(cp, &tv, head, (size_t) hl);
     size_t prev = 0;
     for (int i = 0; i <= ncuts; i++) {
@@ -189,26 +206,31 @@ static void run_e2e(const unsigned char *in, size_t len, int ci, const size_t *c
     htp_tx_t *tx = htp_list_get(cp->conn->transactions, 0);
     char d[400];
     const char *how = txcfg ? (chunked ? "e2e_txcfg_chunked_" : "e2e_txcfg_") : (chunked ? "e2e_chunked_" : "e2e_");
-    char key[40];
+    char key[72];
     if (tx == NULL || tx->request_params == NULL) { snprintf(key, sizeof key, "%sno_params", how); report(key, in, len, ci, cuts, ncuts, "no transaction / parameter table"); htp_connp_destroy_all(cp); return; }
+    for (int src = 0; src < (query ? 2 : 1); src++) {
+    enum htp_data_source_t want_src = src == 0 ? HTP_SOURCE_BODY : HTP_SOURCE_QUERY_STRING;
+    const char *sn = src == 0 ? "body" : "query-string";
+    char how2[40]; snprintf(how2, sizeof how2, "%s%s%s", how, copied ? "copy_" : "", src ? "query_" : "");
     int got = 0, bad = 0;
     for (size_t i = 0, n = htp_table_size(tx->request_params); i < n && !bad; i++) {
         htp_param_t *pm = htp_table_get_index(tx->request_params, i, NULL);
-        if (pm == NULL || pm->source != HTP_SOURCE_BODY) continue;
+        if (pm == NULL || pm->source != want_src) continue;
         if (got < nexp) {
             if (bstr_len(pm->name) != exp[got].name.n || memcmp(bstr_ptr(pm->name), exp[got].name.b, exp[got].name.n) != 0) {
-                snprintf(d, sizeof d, "body parameter %d: name has %zu bytes, reference %zu bytes%s", got, bstr_len(pm->name), exp[got].name.n, txcfg ? " (settings installed with htp_tx_set_config)" : "");
-                snprintf(key, sizeof key, "%sname", how); report(key, in, len, ci, cuts, ncuts, d); bad = 1;
+                snprintf(d, sizeof d, "%s parameter %d: name has %zu bytes, reference %zu bytes%s", sn, got, bstr_len(pm->name), exp[got].name.n, txcfg ? " (settings installed with htp_tx_set_config)" : "");
+                snprintf(key, sizeof key, "%sname", how2); report(key, in, len, ci, cuts, ncuts, d); bad = 1;
             } else if (bstr_len(pm->value) != exp[got].value.n || memcmp(bstr_ptr(pm->value), exp[got].value.b, exp[got].value.n) != 0) {
-                snprintf(d, sizeof d, "body parameter %d: value has %zu bytes, reference %zu bytes%s", got, bstr_len(pm->value), exp[got].value.n, txcfg ? " (settings installed with htp_tx_set_config)" : "");
-                snprintf(key, sizeof key, "%svalue", how); report(key, in, len, ci, cuts, ncuts, d); bad = 1;
+                snprintf(d, sizeof d, "%s parameter %d: value has %zu bytes, reference %zu bytes%s", sn, got, bstr_len(pm->value), exp[got].value.n, txcfg ? " (settings installed with htp_tx_set_config)" : "");
+                snprintf(key, sizeof key, "%svalue", how2); report(key, in, len, ci, cuts, ncuts, d); bad = 1;
             }
         }
         got++;
     }
     if (!bad && got != nexp) {
-        snprintf(d, sizeof d, "%d body parameters reported, reference gives %d", got, nexp);
-        snprintf(key, sizeof key, "%spair_count", how); report(key, in, len, ci, cuts, ncuts, d);
+        snprintf(d, sizeof d, "%d %s parameters reported, reference gives %d%s", got, sn, nexp, copied ? " (connection created from htp_config_copy)" : "");
+        snprintf(key, sizeof key, "%spair_count", how2); report(key, in, len, ci, cuts, ncuts, d);
+    }
     }
     htp_connp_destroy_all(cp);
 }
@@ -265,6 +287,7 @@ int main(int argc, char **argv) {
         htp_config_set_log_level(c, HTP_LOG_NONE);
         cfgs[ci] = c;
         dcfgs[ci].invalid = inv; dcfgs[ci].plus = plus; dcfgs[ci].nul_enc_term = ne; dcfgs[ci].nul_raw_term = nr;
+        copies[ci] = htp_config_copy(c);
         connps[ci] = htp_connp_create(c);
         txs[ci] = htp_connp_tx_create(connps[ci]);
         ci++;
@@ -307,10 +330,10 @@ int main(int argc, char **argv) {
         check_string(buf, l, &s, 1);
     }
     printf("S {\"evaluations\":%llu,\"strings\":%llu,\"exhaustive_strings\":%llu,\"random_strings\":%llu,\"cut_runs\":%llu,\"configurations\":24,\"reference_pairs\":%llu,"
-           "\"invalid_encodings_in_reference\":%llu,\"nul_bytes_in_reference\":%llu,\"violations\":%llu,\"end_to_end_runs\":%llu,\"end_to_end_runs_with_tx_config\":%llu,\"samples\":[%s]}\n",
+           "\"invalid_encodings_in_reference\":%llu,\"nul_bytes_in_reference\":%llu,\"violations\":%llu,\"end_to_end_runs\":%llu,\"end_to_end_runs_with_tx_config\":%llu,\"end_to_end_runs_with_query_string\":%llu,\"end_to_end_runs_on_copied_config\":%llu,\"samples\":[%s]}\n",
            (unsigned long long) n_eval, (unsigned long long) n_strings, (unsigned long long) exhaustive_strings, (unsigned long long) nrandom, (unsigned long long) n_cuts,
-           (unsigned long long) n_pairs, (unsigned long long) n_invalid_enc, (unsigned long long) n_nul, (unsigned long long) n_viol, (unsigned long long) n_e2e, (unsigned long long) n_e2e_txcfg, samples.p ? samples.p : "");
-    for (int k = 0; k < 24; k++) { htp_connp_destroy_all(connps[k]); htp_config_destroy(cfgs[k]); }
+           (unsigned long long) n_pairs, (unsigned long long) n_invalid_enc, (unsigned long long) n_nul, (unsigned long long) n_viol, (unsigned long long) n_e2e, (unsigned long long) n_e2e_txcfg, (unsigned long long) n_e2e_query, (unsigned long long) n_e2e_copy, samples.p ? samples.p : "");
+    for (int k = 0; k < 24; k++) { htp_connp_destroy_all(connps[k]); htp_config_destroy(cfgs[k]); if (copies[k]) htp_config_destroy(copies[k]); }
     htp_config_destroy(conn_cfg_other);
     hb_free(&samples);
     fflush(stdout);
